@@ -162,6 +162,17 @@ def check_class_groups(spec):
         # documented order: dataset, classes_per_group, shuffle, seed
         ClassGroupsWrapper(r, g, spec["shuffle"], spec["seed"]) if spec.get("call") == "positional" else
         ClassGroupsWrapper(r, classes_per_group=g, shuffle=spec["shuffle"], seed=spec["seed"])))
+    # the wrapped dataset's labels are re-configured after construction (public setter of an inner KDRandomClassWrapper): bulk and
+    # per-sample accessor of the group wrapper keep agreeing
+    from kappadata.wrappers import KDRandomClassWrapper
+    root2 = make_root(spec)
+    inner = KDRandomClassWrapper(root2, mode="random", num_classes=C, seed=3)
+    gw = ClassGroupsWrapper(inner, classes_per_group=g, shuffle=spec["shuffle"], seed=int(spec["seed"]))
+    inner.seed = 4
+    per_g = [_as_int(gw.getitem_class(i)) for i in range(len(root2))]
+    bulk_g = _aslist(gw.getall_class())
+    if bulk_g != per_g:
+        raise Violation("bulk!=per-sample:ClassGroupsWrapper:after-the-wrapped-labels-were-re-configured", f"getall_class()={bulk_g} per-sample={per_g}")
     # samples of one original class stay inside one group of g consecutive labels
     grp = {}
     for c, l in zip(spec["classes"], lab):
@@ -426,6 +437,17 @@ def check_one_hot(spec):
             continue  # judged by _check_encoding: refused, or the -1 marker
         if sorted(v.tolist()) != [0.0] * (spec["C"] - 1) + [1.0]:
             raise Violation("one-hot:not-one-hot", str(v.tolist()))
+    # a consumer works on the returned vectors in place (sample-level mixing does): every request hands out a vector of its own, so a
+    # later request for the same or another sample of that class is still one-hot
+    for v, c in zip(enc, spec["classes"]):
+        if c != -1 and torch.is_tensor(v):
+            v.mul_(0.25)
+    for i, c in enumerate(spec["classes"]):
+        if c == -1:
+            continue
+        v2 = w.getitem_class(i)
+        if sorted(v2.tolist()) != [0.0] * (spec["C"] - 1) + [1.0] or int(v2.argmax()) != c:
+            raise Violation("one-hot:encoding-shared-between-requests", f"sample {i} (class {c}) after earlier results were modified in place: {v2.tolist()}")
     return Case(nontrivial_layout(spec), [])
 
 
